@@ -69,3 +69,49 @@ def copy_helpers(facts):
 def is_add_call(facts, t):
     cn = callee_name(t)
     return cn == ADD_TYPED or cn in copy_helpers(facts)
+
+
+def pass_body(facts, fname):
+    """the body that holds the node-copying loop of a pass: the named function, or - when the pass was split into private
+    functions (`collect_..` + `copy_..`) - its only same-file callee (depth <= 2) that has an add site"""
+    b = facts.body(fname)
+    if b is None:
+        return None
+    if any(is_add_call(facts, t) and not b.is_cleanup(bb) for bb, t in b.calls()):
+        return b
+    cands = []
+    seen = {b.id}
+    work = [(b, 0)]
+    while work:
+        x, d = work.pop()
+        for bb, t in x.calls():
+            h = facts.bodies.get(callee_name(t) or "")
+            if h is None or h.id in seen or h.kind == "closure" or h.file != b.file or x.is_cleanup(bb):
+                continue
+            seen.add(h.id)
+            names = [callee_name(t2) or "" for b2, t2 in h.calls() if not h.is_cleanup(b2)]
+            whole_loop = any(n_.endswith("ContextMappings::insert_node") for n_ in names) and \
+                any(n_ in ("graphs::Node::set_as_output", "graphs::Graph::set_output_node") for n_ in names)
+            if any(is_add_call(facts, t2) and not h.is_cleanup(b2) for b2, t2 in h.calls()) and h.id not in copy_helpers(facts):
+                if whole_loop:      # the callee holds the complete copy loop (create, map, mark the output)
+                    cands.append(h)
+            elif d < 1:
+                work.append((h, d + 1))
+    return cands[0] if len(cands) == 1 else b
+
+
+def same_file_family(facts, fname):
+    """the named function and the private same-file functions it calls (depth <= 2), closures excluded"""
+    b = facts.body(fname)
+    if b is None:
+        return []
+    out, work = [b], [(b, 0)]
+    while work:
+        x, d = work.pop()
+        for bb, t in x.calls():
+            h = facts.bodies.get(callee_name(t) or "")
+            if h is not None and h not in out and h.kind != "closure" and h.file == b.file and not x.is_cleanup(bb):
+                out.append(h)
+                if d < 1:
+                    work.append((h, d + 1))
+    return out
